@@ -150,3 +150,13 @@ def sort_jobs(jobs):
         n = j[0].__name__
         return {"unit_command": 0, "unit_response": 1, "unit_class": 2, "unit_dispatch": 3}.get(n, 5)
     return sorted(jobs, key=weight)
+
+
+def g_pump(modes):
+    from checks import pump
+
+    jobs = []
+    for mode in modes:
+        for t in ("Command", "CommandResponseStream"):
+            jobs.append((pump.unit_pump, (mode, t)))
+    return jobs
